@@ -129,6 +129,34 @@ theorem tie_vesting_gate (d : cosmoslane_CLVestingMessagesAuthorizationDecorator
   · simp only [Bool.false_eq_true, if_false]; exact vesting_range _ _ _ _ _ _ _ _
   · rfl
 
+/-- **C16 on the code**: when the gate lets a transaction through, *every* vesting-creation message in it — whichever of the
+three kinds, at whichever position — names a target with a stored proof -/
+theorem goGate_none_all (hp : String → Bool) : ∀ (ms : List iface_ProtoMessage_Reset_String), goGate hp ms = none →
+    ∀ m ∈ ms,
+      (m.is_vestingtypes_MsgCreateVestingAccount = true → hp m.as_vestingtypes_MsgCreateVestingAccount_ToAddress = true) ∧
+      (m.is_vestingtypes_MsgCreateVestingAccount = false → m.is_vestingtypes_MsgCreatePeriodicVestingAccount = true →
+        hp m.as_vestingtypes_MsgCreatePeriodicVestingAccount_ToAddress = true) ∧
+      (m.is_vestingtypes_MsgCreateVestingAccount = false → m.is_vestingtypes_MsgCreatePeriodicVestingAccount = false →
+        m.is_vestingtypes_MsgCreatePermanentLockedAccount = true → hp m.as_vestingtypes_MsgCreatePermanentLockedAccount_ToAddress = true) := by
+  intro ms
+  induction ms with
+  | nil => intro _ m hm; simp at hm
+  | cons x xs ih =>
+    intro h m hm
+    unfold goGate at h
+    have hx : (x.is_vestingtypes_MsgCreateVestingAccount = true → hp x.as_vestingtypes_MsgCreateVestingAccount_ToAddress = true) ∧
+      (x.is_vestingtypes_MsgCreateVestingAccount = false → x.is_vestingtypes_MsgCreatePeriodicVestingAccount = true →
+        hp x.as_vestingtypes_MsgCreatePeriodicVestingAccount_ToAddress = true) ∧
+      (x.is_vestingtypes_MsgCreateVestingAccount = false → x.is_vestingtypes_MsgCreatePeriodicVestingAccount = false →
+        x.is_vestingtypes_MsgCreatePermanentLockedAccount = true → hp x.as_vestingtypes_MsgCreatePermanentLockedAccount_ToAddress = true) ∧
+      goGate hp xs = none := by
+      cases h0 : x.is_vestingtypes_MsgCreateVestingAccount <;> cases h1 : x.is_vestingtypes_MsgCreatePeriodicVestingAccount <;>
+        cases h2 : x.is_vestingtypes_MsgCreatePermanentLockedAccount <;> simp [h0, h1, h2] at h ⊢ <;>
+        (first | exact h | (split at h <;> simp_all))
+    rcases List.mem_cons.mp hm with rfl | hin
+    · exact ⟨hx.1, hx.2.1, hx.2.2.1⟩
+    · exact ih hx.2.2.2 m hin
+
 /-- the Go gate over the views of model messages is the model's `vestingGate` (the function `C16_gate` is about) -/
 theorem goGate_model (hp : String → Bool) : ∀ (ms : List Msg),
     goGate hp (ms.map msgView) = (vestingGate (fun a => hp (addrStr a)) ms).map (fun _ => "ErrUnauthorized") := by
